@@ -801,8 +801,15 @@ func (gs *GossipSubRouter) OnClosedOutboundStream(p peer.ID) {
 		gs.extensions.OnClosedOutboundStream(p)
 	}
 	delete(gs.peers, p)
-	for _, peers := range gs.mesh {
-		delete(peers, p)
+	for topic, peers := range gs.mesh {
+		if _, ok := peers[p]; ok {
+			delete(peers, p)
+			// the peer leaves the mesh without a PRUNE event: release the connection
+			// manager protection that its GRAFT installed
+			if gs.tagTracer != nil {
+				gs.tagTracer.untagMeshPeer(p, topic)
+			}
+		}
 	}
 	for _, peers := range gs.fanout {
 		delete(peers, p)
